@@ -8,7 +8,7 @@ def one(d):
     meta = json.load(open(d + "/meta.json"))
     tmp = tempfile.mkdtemp(prefix="kzrf-")
     try:
-        shutil.copytree("/repo/v2", tmp + "/v2")
+        subprocess.run("git -C /repo archive HEAD v2 | tar -x -C " + tmp, shell=True, check=True)  # committed tree
         r = subprocess.run(["patch", "-p2", "-s", "-f", "-d", tmp + "/v2", "-i", d + "/patch.diff"], capture_output=True, text=True)
         if r.returncode != 0:
             return meta["id"], None
